@@ -259,10 +259,7 @@ where
 
     /// Initialize the enhanced tournament tree with O(log k) structure
     pub fn initialize(&mut self) -> Result<()> {
-        if self.ways.is_empty() {
-            return Err(ZiporaError::invalid_data("No input ways provided"));
-        }
-
+        // Zero ways is a valid (empty) merge: the tree stays empty and pop() yields None
         self.num_ways = self.ways.len();
         
         // Create a complete binary tree structure
